@@ -12,6 +12,9 @@
      c07trace <driver> <state> <on_close> <second> <user> <label,label,...>
      c07oldtrace ...
         -> accept | reject | bad-label:<name>      (see [accepts]; Conc.accepts_trace)
+     c07hooks <driver> <state> <on_close> <second> <user> <hook,hook,...>      (c07oldhooks: old code)
+        -> the same for a record made of the yield points that exist in /repo (their names:
+           [hook_table]); all other program points are silent
      c07thread <driver> <on_close> <thread> <label,label,...>
         -> accept | reject : is the sequence a path of that thread's control-flow graph, started
            at its first statement?  thread = reader | closer | consumer | ncreader | rpc | poller
@@ -49,6 +52,7 @@ Definition label_name (l : label) : bytes :=
   | L_op_ctx_check => bs "op.ctx_check"
   | L_op_return => bs "op.return"
   | L_nclose_done_once => bs "nclose.done_once"
+  | L_nclose_channel_close => bs "nclose.channel_close"
   | L_ncread_check_done => bs "ncread.check_done"
   | L_ncread_send_errs => bs "ncread.send_errs"
   | L_ncread_sleep => bs "ncread.sleep"
@@ -71,6 +75,8 @@ Definition label_name (l : label) : bytes :=
   | L_ochread_read_flag => bs "ochread.read_flag"
   | L_onclose_send_done => bs "onclose.send_done"
   | L_oncread_send_errs => bs "oncread.send_errs"
+  | L_sys_load_fd => bs "sysread.load_fd"
+  | L_sys_fd_nil => bs "sysclose.fd_nil"
   end.
 
 Fixpoint label_of_name_in (n : bytes) (ls : list label) : option label :=
@@ -79,6 +85,40 @@ Fixpoint label_of_name_in (n : bytes) (ls : list label) : option label :=
   | l :: t => if beqb n (label_name l) then Some l else label_of_name_in n t
   end.
 Definition label_of_name (n : bytes) : option label := label_of_name_in n all_labels.
+
+(* The yield points that exist in /repo (build tag `verif`: channel.VerifYield /
+   netconf.VerifYield) and the model label each of them stands for. *)
+Definition hook_table : list (bytes * label) :=
+  [ (bs "close:start", L_close_done_once);
+    (bs "close:after-done", L_close_select);
+    (bs "read:top", L_read_check_done);
+    (bs "read:before-transport-read", L_tread_lock);
+    (bs "read:after-read-error", L_read_check_done2);
+    (bs "read:before-error-handoff", L_read_send_errs);
+    (bs "read:before-enqueue", L_read_enqueue);
+    (bs "Read:start", L_chread_errs);
+    (bs "ncread:top", L_ncread_check_done);
+    (bs "ncread:before-error-handoff", L_ncread_send_errs);
+    (bs "ncclose:start", L_nclose_done_once);
+    (bs "ncclose:after-done", L_nclose_channel_close) ].
+
+Fixpoint hook_label (n : bytes) (t : list (bytes * label)) : option label :=
+  match t with
+  | [] => None
+  | (h, l) :: r => if beqb n h then Some l else hook_label n r
+  end.
+
+Definition is_hook (l : label) : bool :=
+  existsb (fun hl => label_eqb l (snd hl)) hook_table.
+
+(* the system as seen through a subset of the yield points: the other labels become silent *)
+Definition mask_code (vis : label -> bool) (c : code label) : code label :=
+  map (fun li => (match fst li with
+                  | Some l => if vis l then Some l else None
+                  | None => None
+                  end, snd li)) c.
+Definition mask (vis : label -> bool) (sy : sys label) : sys label :=
+  mkSys (map (mask_code vis) (threads sy)) (init sy).
 
 (* ---------- scenario parsing ---------- *)
 
@@ -197,6 +237,12 @@ Definition accepts (sc : scenario) (tr : list label) : bool :=
 Definition accepts_old (sc : scenario) (tr : list label) : bool :=
   accepts_trace label_id (old_sys_of sc) TRACE_FUEL tr.
 
+(* the same for a record that contains only the yield points present in /repo ([hook_table]) *)
+Definition accepts_hooks (sc : scenario) (tr : list label) : bool :=
+  accepts_trace label_id (mask is_hook (sys_of sc)) TRACE_FUEL tr.
+Definition accepts_hooks_old (sc : scenario) (tr : list label) : bool :=
+  accepts_trace label_id (mask is_hook (old_sys_of sc)) TRACE_FUEL tr.
+
 Definition COMMA : N := 44%N.
 
 Fixpoint parse_labels (names : list bytes) : list label + bytes :=
@@ -213,6 +259,28 @@ Definition parse_trace (f : bytes) : list label + bytes :=
   match f with
   | [] => inl []
   | _ => if is f "-" then inl [] else parse_labels (split_on COMMA f)
+  end.
+
+Fixpoint parse_hooks (names : list bytes) : list label + bytes :=
+  match names with
+  | [] => inl []
+  | n :: t =>
+      match hook_label n hook_table with
+      | None => inr n
+      | Some l => match parse_hooks t with inl ls => inl (l :: ls) | inr e => inr e end
+      end
+  end.
+
+Definition run_hooks (old : bool) (fs : list bytes) : list bytes :=
+  match parse_scenario fs with
+  | None => [bs "bad-input"]
+  | Some sc =>
+      let f := nthf 6 fs in
+      match (match f with [] => inl [] | _ => if is f "-" then inl [] else parse_hooks (split_on COMMA f) end) with
+      | inr n => [bs "bad-label:" ++ n]
+      | inl tr => if (if old then accepts_hooks_old sc tr else accepts_hooks sc tr)
+                  then [bs "accept"] else [bs "reject"]
+      end
   end.
 
 Definition run_trace (old : bool) (fs : list bytes) : list bytes :=
@@ -256,6 +324,8 @@ Definition run_c07 (fs : list bytes) : list bytes :=
   else if is name "c07old" then run_outcomes true fs
   else if is name "c07trace" then run_trace false fs
   else if is name "c07oldtrace" then run_trace true fs
+  else if is name "c07hooks" then run_hooks false fs
+  else if is name "c07oldhooks" then run_hooks true fs
   else if is name "c07thread" then run_thread fs
   else [bs "unknown-case"].
 
